@@ -70,23 +70,35 @@ def one_path(E, ctx, prog, desc_base, raising=False):
     o1 = prog.run(prog.orig_fn, args, env1)
     if o1[0] == "unwind":
         return fails, "unwind"
-    o2 = prog.run(fn, args, env2)
-    mism = s2.compare_runs(E, o1, env1.log, o2, env2.log, ctx)
-    for kind, detail in mism:
-        if kind == "inconclusive":
-            if ctx is not None:
-                ctx.extra["inconclusive"] += 1
-            continue
-        inp = None
-        if E is not None:
-            inp = s2.model_inputs(E, argvars, [env1, env2])
-        cs = s2.causes(prog.src)
-        if not (o2 == ("ret", None) or o2 == ("exc", "TypeError") or o1 == ("exc", "UnboundLocalError")):
-            # D12 explains a mismatch only when None surfaced or the original left the target unbound
-            cs = [c for c in cs if not c.startswith("D12")]
-        sig = "behaviour:" + ("+".join(cs) if cs else kind)
-        fails.append({"kind": "behaviour", "signature": sig, "detail": f"{kind}: {detail}"[:300], "inputs": inp})
-        break
+    # the primary round trip, then the round trips through the other input forms / repeated conversions that gave
+    # another text (none on a tree where conversion is a pure function of the source)
+    candidates = [("str#1", fn, env2)]
+    for label, st in prog.pipeline_forms():
+        if st[0] == "ok":
+            e3 = s2.Env(E, raising=raising) if E is not None else s2.Env(None, concrete=desc_base["ext"], raising=raising)
+            candidates.append((label, st[1], e3))
+        elif st[0] == "error":
+            fails.append({"kind": "pipeline-error", "signature": f"pipeline:form={label.split('#')[0]}:{st[1]}:{exc_signature(st[2])}",
+                          "detail": f"round trip {label} of the same function: {st[2]!r}"[:200]})
+            return fails, "error"
+    for label, fn_i, env_i in candidates:
+        o2 = prog.run(fn_i, args, env_i)
+        mism = s2.compare_runs(E, o1, env1.log, o2, env_i.log, ctx)
+        for kind, detail in mism:
+            if kind == "inconclusive":
+                if ctx is not None:
+                    ctx.extra["inconclusive"] += 1
+                continue
+            inp = None
+            if E is not None:
+                inp = s2.model_inputs(E, argvars, [env1, env_i])
+            cs = s2.causes(prog.src)
+            if not (o2 == ("ret", None) or o2 == ("exc", "TypeError") or o1 == ("exc", "UnboundLocalError")):
+                # D12 explains a mismatch only when None surfaced or the original left the target unbound
+                cs = [c for c in cs if not c.startswith("D12")]
+            sig = "behaviour:" + ("+".join(cs) if cs else kind)
+            fails.append({"kind": "behaviour", "signature": sig, "detail": f"[{label}] {kind}: {detail}"[:300], "inputs": inp})
+            return fails, "compared"
     return fails, "compared"
 
 
@@ -191,6 +203,9 @@ def replay(desc):
         pl = prog.pipeline()
         if pl[0] == "error":
             return [{"kind": "pipeline-error", "signature": f"pipeline:{pl[1]}:{exc_signature(pl[2])}", "detail": repr(pl[2])[:200]}]
+        for label, st in prog.pipeline_forms():
+            if st[0] == "error":
+                return [{"kind": "pipeline-error", "signature": f"pipeline:form={label.split('#')[0]}:{st[1]}:{exc_signature(st[2])}", "detail": repr(st[2])[:200]}]
         return []
     fails, status = one_path(None, None, prog, desc)
     return fails
